@@ -195,7 +195,9 @@ def translate(repo):
             raise ValueError("chunk layout (data at buf[lo..], CR LF after it, leading zeros trimmed)")
     except Exception as e:   # noqa
         P.append("src/util.rs copy_chunked_async: cannot translate (%s)" % e)
-        buf_len, lo, hi, shifts, term, crlf_at = 0, 0, 0, [], b"", []
+        # keep the model meaningful (the values of the pinned commit); the proof step is red because of
+        # src_translation_problems > 0 (Tie/ChunkTie.v: translation_complete)
+        buf_len, lo, hi, shifts, term, crlf_at = 65536, 6, 65534, [(0, 12), (1, 8), (2, 4), (3, 0)], b"0\r\n\r\n", [(4, 13), (5, 10)]
     L += ["(* src/util.rs copy_chunked_async *)",
           "Definition src_chunk_buf_len : N := %d." % buf_len,
           "Definition src_chunk_read_lo : N := %d." % lo,
@@ -340,6 +342,12 @@ def translate(repo):
           "Definition src_request_line_regex : regex :=\n  %s." % rx[0],
           "Definition src_field_line_regex : regex :=\n  %s." % rx[1], ""]
 
+    items = [("chunk", "src/util.rs"), ("event_queue", "src/response.rs"), ("conn_buf", "src/http_conn.rs"),
+             ("time", "src/time.rs"), ("content_type", "src/content_type.rs"), ("log_prio", "src/log/logger.rs"),
+             ("event_fmt", "src/event.rs"), ("regex", "src/head.rs")]
+    L.append("(* what the translator could not read, per item (0 everywhere = the translation is complete) *)")
+    for key, prefix in items:
+        L.append("Definition src_problems_%s : nat := %d." % (key, sum(1 for p in P if p.startswith(prefix))))
     L.append("Definition src_translation_problems : nat := %d." % len(P))
     return "\n".join(L) + "\n", P
 
